@@ -42,6 +42,8 @@ def gen_project(rng, stream="structured", n_tasks=None, facilities=None, fs_only
         pos = order[k]
         work = rng.choice([Fraction(0), Fraction(1, 8), Fraction(1, 2), Fraction(1), Fraction(1), Fraction(2),
                            Fraction(3), Fraction(5, 2), Fraction(4), Fraction(6)])
+        if rng.random() < 0.03:
+            work = Fraction(rng.choice([12, 16, 20, 24]))      # a large amount (a tolerance must not grow with the quantity)
         if rng.random() < 0.05:
             # a hair more than the grid: finishing is a tolerance test (2^-30 is above the tolerance 1e-10:
             # one more step; 2^-40 is below it: finished with that residue)
@@ -72,8 +74,9 @@ def gen_project(rng, stream="structured", n_tasks=None, facilities=None, fs_only
     nc = rng.choice([0, 0, 1, 2, 3, 4, 5]) if (use_fac or rng.random() < 0.3) else 0
     if use_fac and nc == 0:
         nc = rng.choice([1, 2, 3])
+    big = 64 if rng.random() < 0.04 else 1          # now and then sizes in the hundreds (the space tolerance 1e-8 is absolute)
     for i in range(nc):
-        comps.append({"size": qs(rng.choice([Fraction(1), Fraction(1), Fraction(1, 2), Fraction(2), Fraction(3, 2)])),
+        comps.append({"size": qs(big * rng.choice([Fraction(1), Fraction(1), Fraction(1, 2), Fraction(2), Fraction(3, 2)])),
                       "children": []})
     # forest: component i may get parent j (any index order -> child before parent possible)
     if nc >= 2:
@@ -104,7 +107,7 @@ def gen_project(rng, stream="structured", n_tasks=None, facilities=None, fs_only
                 elif r < 0.7:
                     skills[str(nm)] = "0/1"
                 elif r < 0.72:
-                    skills[str(nm)] = "-1/2"        # a negative entry is no skill
+                    skills[str(nm)] = rng.choice(["-1/2", "-1/1", "-2/1"])        # a negative entry is no skill (and cancels nothing)
                 elif r < 0.735:
                     skills[str(nm)] = qs(Fraction(1, 2 ** 40))      # positive but below the tolerance: no skill either
             ws.append({"skills": skills, "fskills": {}, "cost": qs(rng.choice([Fraction(0), Fraction(1), Fraction(5, 2), Fraction(10), Fraction(1), Fraction(5, 2), Fraction(1, 2 ** 40)])),
@@ -126,7 +129,7 @@ def gen_project(rng, stream="structured", n_tasks=None, facilities=None, fs_only
                     elif r < 0.72:
                         skills[str(nm)] = "0/1"
                     elif r < 0.74:
-                        skills[str(nm)] = "-1/2"
+                        skills[str(nm)] = rng.choice(["-1/2", "-1/1", "-2/1"])
                     elif r < 0.755:
                         skills[str(nm)] = qs(Fraction(1, 2 ** 40))
                 fs.append({"skills": skills, "cost": qs(rng.choice([Fraction(0), Fraction(1), Fraction(3), Fraction(1), Fraction(3), Fraction(1, 2 ** 40)])),
